@@ -121,4 +121,21 @@ PROPS = {
         ],
         "assumptions": ["Go map iteration order is irrelevant to the observables compared (principal lists are sorted)"],
     },
+    "C13": {
+        "propfile": "PropC13.v",
+        "n": {"quick": 600, "thorough": 20000},
+        "corr": "tufv02 (and tufv01) TargetsMetadata / RootMetadata mutators vs tstep / rstep (Meta.v)",
+        "rule": "two thirds rule-file cases: 1-14 edits from {AddPrincipal, AddRule, UpdateRule, RemoveRule, ReorderRules, RemovePrincipal, "
+                "UpdatePrincipal} with arbitrary arguments (reserved and empty names, undefined/empty/duplicate principal ids, thresholds "
+                "-1..3, permutations/extra/missing names for reorder); one third root cases: 1-12 edits from {Add/Delete root and "
+                "primary-rule-file principals, threshold updates}. Each edit runs on a v02 and a v01 object; after every edit the v02 object "
+                "is dumped through the query interface. At the end both objects are serialised+reloaded and the v01 object migrated; "
+                "dumps and rule matching must be identical. non-trivial = >=3 edits",
+        "theorems": ["C13_rule_file_step", "C13_rule_file_sequences", "C13_root_step", "C13_root_sequences"],
+        "trusted": [
+            "encoding/json text layer; principals are abstracted to their ids (keys, identities and custom data are not modelled)",
+            "global-rule, propagation, controller/network, hook and GitHub-app mutators and API-level rule-name uniqueness are not modelled",
+        ],
+        "assumptions": [],
+    },
 }
